@@ -62,6 +62,10 @@ type Case struct {
 	Faults []Fault `json:"faulty_runs"` // one fault per run, runs in sequence, then a clean run
 	Torn   int     `json:"torn_sum_prefix,omitempty"`
 	Mode   string  `json:"mode,omitempty"` // "", "torn", "files-written-sum-not-saved"
+	// the module has previous outputs but NO gengo.sum when the faulty runs start (deleted, or only runs without All so far)
+	NoSum bool `json:"no_sum_file_before,omitempty"`
+	// the faulty runs (not the clean one that follows) have Force set
+	Force bool `json:"faulty_runs_with_force,omitempty"`
 }
 
 func gens(f *Fault) []pipe.GenScript {
@@ -214,6 +218,9 @@ func checkCase(c *core.Ctx, cs Case) {
 	if !prepare(c, dir) {
 		return
 	}
+	if cs.NoSum {
+		_ = os.Remove(filepath.Join(dir, "gengo.sum"))
+	}
 	label := ""
 	switch cs.Mode {
 	case "torn":
@@ -239,13 +246,17 @@ func checkCase(c *core.Ctx, cs Case) {
 		status, sig := 0, ""
 		if f.Kind == "kill" || f.Kind == "exit" {
 			var err error
-			o, status, sig, err = pipe.ExecChild(spec(dir, cs.All, &f))
+			sp := spec(dir, cs.All, &f)
+			sp.Force = cs.Force
+			o, status, sig, err = pipe.ExecChild(sp)
 			if err != nil {
 				c.Internal("child: %v", err)
 				return
 			}
 		} else {
-			o = pipe.Exec(spec(dir, cs.All, &f))
+			sp := spec(dir, cs.All, &f)
+			sp.Force = cs.Force
+			o = pipe.Exec(sp)
 		}
 		c.Trans(1)
 		after, _ := pipe.ReadTree(dir)
@@ -299,6 +310,11 @@ func checkCase(c *core.Ctx, cs Case) {
 			}
 		}
 		// gengo.sum byte-identical after every kind of failure
+		if _, was := before["gengo.sum"]; !was {
+			if now, is := after["gengo.sum"]; is {
+				c.Fail("", cs, "%s: there was no gengo.sum before the failed run, afterwards there is one (%d bytes)", desc, len(now))
+			}
+		}
 		if before["gengo.sum"] != after["gengo.sum"] {
 			c.Fail("", cs, "%s: gengo.sum was rewritten by a failed run\n--- before ---\n%s--- after ---\n%s", desc, before["gengo.sum"], after["gengo.sum"])
 		}
@@ -401,6 +417,25 @@ func run(c *core.Ctx) {
 		}
 		if c.Next() {
 			checkCase(c, Case{All: all, Mode: "files-written-sum-not-saved"})
+		}
+		// the same fault points in a module that has no gengo.sum (yet / any more)
+		noSumKinds := []string{"error", "goexit", "kill"}
+		if c.Thorough() {
+			noSumKinds = kinds
+		}
+		for _, p := range pts {
+			for _, k := range noSumKinds {
+				if !c.Next() {
+					continue
+				}
+				f := p
+				f.Kind = k
+				checkCase(c, Case{All: all, Faults: []Fault{f}, NoSum: true})
+				if k != "goexit" {
+					// and with Force set on the faulty run (regenerating whatever the cache says is no licence to save)
+					checkCase(c, Case{All: all, Faults: []Fault{f}, Force: true})
+				}
+			}
 		}
 	}
 	c.Bound("fault_points", nPoints)
